@@ -100,7 +100,8 @@ def main(rec):
     gspecs = [gen.spec_for(d, name) for name, d, meta in gl]
     if not thorough:
         # quick: every corpus configuration, a slice of generated single-row libraries
-        gspecs = [s for i, s in enumerate(gspecs) if i % 6 == common.seed() % 6 or s["name"].startswith("gmix")]
+        # (libraries built to put several elements into one ordered collection are always kept)
+        gspecs = [s for i, s in enumerate(gspecs) if i % 6 == common.seed() % 6 or s["name"].startswith("gmix") or "typedefheaders" in s["name"]]
     allspecs = base + gspecs
 
     # ---- (a) fresh-process perturbations
